@@ -166,12 +166,21 @@ func VerifH_C11_Cycles() {
 	texts := map[string]string{}
 	switch kind {
 	case 0:
+		// module a may carry its import of c in a submodule, under the prefix a itself
+		// uses for b (a submodule has its own prefix scope; the import still counts for a)
+		viaSub := e[0][2] && vrt.Bool("a-imports-c-via-submodule")
+		if viaSub {
+			texts["asub"] = "submodule asub { belongs-to a { prefix a; } import c { prefix pb; } }"
+		}
 		for i := 0; i < 3; i++ {
 			t := "module " + n[i] + " { namespace 'urn:" + n[i] + "'; prefix " + n[i] + "; "
 			for j := 0; j < 3; j++ {
-				if e[i][j] && i != j {
+				if e[i][j] && i != j && !(viaSub && i == 0 && j == 2) {
 					t += "import " + n[j] + " { prefix p" + n[j] + "; } "
 				}
+			}
+			if viaSub && i == 0 {
+				t += "include asub; "
 			}
 			// a self import is written too
 			if e[i][i] {
